@@ -3,9 +3,8 @@
 // Contracts for package jt808, read by /verif/govc. Comment-only; never compiled into the library.
 package jt808
 
-// A message handed to a body parser was produced by NewJTMessage (+ Decode): the three objects exist and the
-// header names one of the protocol versions of the standard (2011, 2013, 2019).
-//@ valid *JTMessage m: m != nil && m.Header != nil && m.Header.Property != nil && m.Header.ProtocolVersion >= 1 && m.Header.ProtocolVersion <= 3
+// A message object was produced by NewJTMessage: the three objects exist.
+//@ valid *JTMessage m: m != nil && m.Header != nil && m.Header.Property != nil
 //@ valid *Header h: h != nil && h.Property != nil
 
 // ---------------------------------------------------------------------------------------------
@@ -133,12 +132,14 @@ package jt808
 //@ spec noesc(d []byte) bool = forall(k, 1, len(d)-1, d[k] != 0x7d)
 
 //@ func (*JTMessage).Decode
+//@   mode contract
 //@   modifies *j, *j.Header, *j.Header.Property
 //@   ensures C02.syntax: result == nil ==> old(w1(data) && w2(data))
 //@   ensures C02.reject: !old(w1(data) && w2(data)) ==> iserr(result, protocol.ErrUnqualifiedData)
 //@   ensures C02.plainiff: old(noesc(data)) ==> iff(result == nil, old(w1(data) && utils.xorfold(data[1:len(data)-1], len(data)-2) == 0 && len(data)-2 >= 4 && len(data)-2 >= hlen(data[1:len(data)-1]) && len(data)-2 == hlen(data[1:len(data)-1]) + blen(data[1:len(data)-1]) + 1))
 //@   ensures C02.checksum: old(noesc(data) && w1(data)) && old(utils.xorfold(data[1:len(data)-1], len(data)-2)) != 0 ==> iserr(result, protocol.ErrCheckCode)
 //@   ensures C02.bodylen: result == nil ==> len(j.Body) == int(j.Header.Property.BodyDayaLen)
+//@   ensures C02.proto: result == nil ==> j.Header.ProtocolVersion == 2 || j.Header.ProtocolVersion == 3
 //@   ensures C02.plainbody: old(noesc(data)) && result == nil ==> ptr(j.Body) == ptr(data) + 1 + old(hlen(data[1:len(data)-1])) && len(j.Body) == old(blen(data[1:len(data)-1]))
 //@   ensures C02.plainid: old(noesc(data)) && result == nil ==> j.Header.ID == old(be16(data, 1)) && j.Header.Property.attribute == old(be16(data, 3))
 //@   ensures C02.plainserial: old(noesc(data)) && result == nil ==> j.Header.SerialNumber == old(be16(data, 1 + hbase(data[1:len(data)-1]) - 2))
@@ -187,3 +188,10 @@ package jt808
 //@   precall escape C01.phone: sameBytes(arg0[4 + old(v19(h)) : 4 + old(v19(h)) + old(len(h.bcdTerminalPhoneNo))], old(h.bcdTerminalPhoneNo))
 //@   precall escape C01.body: sameBytes(arg0[6 + old(v19(h)) + old(len(h.bcdTerminalPhoneNo)) : 6 + old(v19(h)) + old(len(h.bcdTerminalPhoneNo)) + len(body)], old(body))
 //@   precall append#5 C01.xor: arg1[0] == utils.xorfold(arg0, len(arg0))
+
+//@ func NewJTMessage
+//@   mode contract
+//@   modifies nothing
+//@   ensures fresh: result != nil && fresh(result) && result.Header != nil && fresh(result.Header) && result.Header.Property != nil && fresh(result.Header.Property)
+//@   ensures distinct: result.Header != result.Header.Property
+//@   ensures zero: result.Body == nil && result.VerifyCode == 0
